@@ -15,7 +15,7 @@ Everything not recognised raises Untranslatable (fail closed)."""
 import ast, re
 from translate import pylite as P
 
-PROPERTIES = ["C13"]
+PROPERTIES = ["C13", "C05"]
 OUTPUTS = ["NegCodecGen.v"]
 
 BYTES, STR, ZT, LINES, DICT, KEYS = "bytes", "str", "Z", "lines", "dict", "keys"
